@@ -181,8 +181,19 @@ func (c *Client) Send(dst *network.ServerIdentity, path string, buf []byte) ([]b
 	defer connLock.Unlock()
 
 	var rcv []byte
+	failed := true
 	defer func() {
 		c.Lock()
+		if failed {
+			// The server closes a connection after reporting an error on it,
+			// so it cannot carry the next request: forget it even if
+			// connections are kept, the next Send then dials a fresh one.
+			dest := destination{dst, path}
+			if conn, ok := c.connections[dest]; ok {
+				delete(c.connections, dest)
+				conn.Close()
+			}
+		}
 		c.closeSingleUseConn(dst, path)
 		c.rx += uint64(len(rcv))
 		c.tx += uint64(len(buf))
@@ -201,6 +212,7 @@ func (c *Client) Send(dst *network.ServerIdentity, path string, buf []byte) ([]b
 	if err != nil {
 		return nil, xerrors.Errorf("connection read: %v", err)
 	}
+	failed = false
 	return rcv, nil
 }
 
